@@ -107,21 +107,31 @@ def rule_threshold(ctx):
     ctx.touch(n)
     idx = 'get_block_index(join(a1.blockchain_dir, "index"))?'
     it = 'each(%s)' % idx
+    # table writes in the fold loop: insert(table, key, value) calls and stores through get_mut(table, key)
     ins = [cs for cs in n.calls if mir.method_name(cs.name) == 'insert' and n.loop_depth(cs.bb) >= 1]
-    tbl = set()
-    kinds = []
+    writes = []
     for cs in ins:
         a = [canon(x) for x in n.arg_exprs(cs)]
-        tbl.add(a[0])
-        ctx.check('threshold', 'keyed-by-records-file', a[1] == '%s.1.blk_index' % it, cs, 'table key = %s' % a[1])
-        ctx.check('threshold', 'value-is-records-height', a[2] == '%s.0' % it, cs, 'table value = %s' % a[2])
-        gd = [x for x in util.guards_at(n, cs.bb) if 'next(' not in x]
-        cur = 'get(new(), %s.1.blk_index)?' % it
+        writes.append((a[0], a[1], a[2], cs.bb, cs))
+    for bb, idx, p2, rv, st2 in n.stores():
+        if rv is None or n.loop_depth(bb) < 1:
+            continue
+        m = re.match(r'^get_mut\((.*?), (.*)\)\?$', canon(n.place_expr(p2)))
+        if m:
+            writes.append((m.group(1), m.group(2), canon(n.rvalue_expr(rv)), bb, (n, bb)))
+    tbl = set()
+    kinds = []
+    for t0, k0, v0, wbb, site in writes:
+        tbl.add(t0)
+        ctx.check('threshold', 'keyed-by-records-file', k0 == '%s.1.blk_index' % it, site, 'table key = %s' % k0)
+        ctx.check('threshold', 'value-is-records-height', v0 == '%s.0' % it, site, 'table value = %s' % v0)
+        gd = [x for x in util.guards_at(n, wbb) if 'next(' not in x]
+        curs = ['get(new(), %s.1.blk_index)?' % it, 'get_mut(new(), %s.1.blk_index)?' % it]
         if any(x.endswith(' is None') for x in gd):
             kinds.append('init')
-        elif any(x in ('%s < %s.0' % (cur, it), 'gt(%s.0, %s)' % (it, cur)) for x in gd):
+        elif any(x in ('%s < %s.0' % (cur, it), 'gt(%s.0, %s)' % (it, cur)) for x in gd for cur in curs):
             kinds.append('max')
-        elif any(x in ('%s.0 < %s' % (it, cur), 'lt(%s.0, %s)' % (it, cur)) for x in gd):
+        elif any(x in ('%s.0 < %s' % (it, cur), 'lt(%s.0, %s)' % (it, cur)) for x in gd for cur in curs):
             kinds.append('min')
         else:
             kinds.append('other:%s' % gd)
@@ -139,9 +149,9 @@ def rule_threshold(ctx):
     st = canon(n.ret_expr())
     ctx.check('threshold', 'table-stored', len(tbl) == 1 and 'max_height_blk_index: %s' % list(tbl)[0] in st, n, 'the folded table is the struct field')
     ret = [cs for cs in n.calls if mir.method_name(cs.name) == 'retain']
-    okb = bool(ret) and all(n.dominates(cs.bb, ret[0].bb) or not n.path_exists(ret[0].bb, [cs.bb]) for cs in ins)
+    okb = bool(ret) and all(n.dominates(w[3], ret[0].bb) or not n.path_exists(ret[0].bb, [w[3]]) for w in writes)
     ctx.check('threshold', 'folded-before-trimming', okb, n, 'the fold runs over the full index, before retain()')
-    ctx.check('threshold', 'two-insert-sites', len(ins) == 2, n, '%d insertion sites' % len(ins))
+    ctx.check('threshold', 'two-insert-sites', len(writes) == 2, n, '%d table write sites' % len(writes))
 
 
 def run(ctx):
